@@ -91,6 +91,7 @@ def run(prog, chk):
         "the scripts / glyph classifications a writer registers are computed for the font of the current call: no per-font state or memoised result on the writer object (R20.3, shared with C08)",
         "kerning is only registered under scripts the font is known to support: code points are classified by extensions & (knownScripts | DFLT), v2 registers subsets of knownScripts (R20.4)",
         "getScriptLanguageSystems files every declared language under the statement's own OT script tag and pairs each tag with the list stored under it (R20.5)",
+        "the font's scripts are guessed from exported glyphs only: a script of skipped glyphs would be registered by the kern writer alone (R20.6, shared with C13)",
     ]
     chk.not_decided += ["which scripts a given font ends up with in the compiled ScriptList"]
     writers = default_writers(prog)
@@ -132,6 +133,8 @@ def run(prog, chk):
     chk.guard(c08.r087, prog, chk, "R20.3")
     chk.guard(r204, prog, chk)
     chk.guard(r205, prog, chk)
+    from .c13 import check_scripts_from_exported_glyphs
+    chk.guard(check_scripts_from_exported_glyphs, prog, chk, "R20.6")
 
 
 def feature_tags(prog, w: ClassInfo) -> Set[str]:
@@ -322,6 +325,8 @@ def r205(prog, chk):
 
 
 MUTANTS = [
+    M("scripts guessed from non-exported glyphs too (seeded C20f)", "ufo2ft/featureWriters/baseFeatureWriter.py", "BaseFeatureWriter.guessFontScripts",
+      "glyph.name not in glyphSet or glyph.unicodes is None", "glyph.unicodes is None", rule="R20.6"),
     M("languages collected per Unicode script instead of per OT tag (seeded C20e)", "ufo2ft/featureWriters/ast.py", "getScriptLanguageSystems",
       "languagesByScript.setdefault(ls.script, []).append(ls.language)", "languagesByScript.setdefault(unicodedata.ot_tag_to_script(ls.script), []).append(ls.language)", rule="R20.5"),
     M("code points fall back to their own Script property when no extension is a known script (seeded C20d)", "ufo2ft/featureWriters/kernFeatureWriter.py", "KernFeatureWriter.knownScriptsPerCodepoint",
